@@ -12,7 +12,7 @@ RULE = ("reference graphs over n <= 8 settings: self references, references to a
         "(whole config), Unpack of one setting into typed fields ([]string, []interface{}, [1]string, time.Duration, int64, *string, string), Has, CountField, Child+Unpack, FlattenedKeys, diff.CompareConfigs. The worker runs each case in a process with "
         "a 64 MiB stack limit and a 4 s watchdog: divergence is a FATAL/timeout result = violation. Oracle: terminates; for settings "
         "in the reference evaluator's scope the value is the substitution, an error iff a reference is re-entered (unless absorbed by "
-        "a default). Non-trivial: the graph has a cycle, a diamond or a repeated use. Distinct by (graph class, entry point, outcome).")
+        "a default). Plus: cycles (through plain references, longer strings, existence tests) absorbed at the point of re-entry by a resolver or an Env that knows one of the names, read setting by setting. Non-trivial: the graph has a cycle, a diamond or a repeated use. Distinct by (graph class, entry point, outcome).")
 TRUSTED_BASE = ["Lean 4 kernel", "Model/Eval.lean (fuelled; a `fuel` result is reported as a disagreement, never defaulted)",
                 "Python reference evaluator (oracle)", "process-level watchdog for divergence", "correspondence harness"]
 ASSUMPTIONS = ["resolver results contain no further ${...}", "order dependence of mutually defaulting settings read in one Unpack is the open known finding D17"]
